@@ -6,6 +6,8 @@ import (
 	"math"
 	"testing"
 
+	"github.com/cinar/indicator/v2/helper"
+	"github.com/cinar/indicator/v2/volatility"
 	"pgregory.net/rapid"
 	"verif/harness/engine"
 	"verif/harness/gen"
@@ -224,8 +226,68 @@ func prop(cl claim) engine.AnyProp {
 	}
 }
 
+// ---- integer price series (cents, ticks): the band ordering that involves no rounding at all ----
+
+// IntCase is a positive integer price series and a period.
+type IntCase[T helper.Integer] struct {
+	Period int `json:"period"`
+	Values []T `json:"values"`
+}
+
+func donchianIntProp[T helper.Integer](name string, top int64) engine.AnyProp {
+	return engine.Prop[IntCase[T]]{
+		ID: "C15", Subject: "DonchianChannel/" + name,
+		Gen: func(t *rapid.T) IntCase[T] {
+			c := IntCase[T]{Period: rapid.IntRange(1, 6).Draw(t, "period")}
+			n := rapid.IntRange(0, 30).Draw(t, "n")
+			cur := rapid.Int64Range(1, top).Draw(t, "v0")
+			for i := 0; i < n; i++ {
+				// flat runs, small steps, odd and even values
+				if rapid.IntRange(0, 2).Draw(t, "move") == 0 {
+					cur += rapid.Int64Range(-3, 3).Draw(t, "d")
+				}
+				if cur < 1 {
+					cur = 1
+				}
+				if cur > top {
+					cur = top
+				}
+				c.Values = append(c.Values, T(cur))
+			}
+			return c
+		},
+		Check: func(c IntCase[T]) engine.Outcome {
+			var o engine.Outcome
+			res := pipe.Run([][]T{c.Values}, pipe.Opts{}, func(cs []<-chan T) []<-chan T {
+				u, m, l := volatility.NewDonchianChannelWithPeriod[T](c.Period).Compute(cs[0])
+				return []<-chan T{u, m, l}
+			})
+			if !res.OK() {
+				o.Failf("DonchianChannel[%s](%d) over %v: %s: %s", name, c.Period, c.Values, res.Verdict, res.Detail)
+				return o
+			}
+			flatOdd := false
+			for k := range res.Outs[0] {
+				u, m, l := res.Outs[0][k], res.Outs[1][k], res.Outs[2][k]
+				v := c.Values[k+c.Period-1]
+				if !(u >= m && m >= l) || !(l <= v && v <= u) {
+					o.Failf("DonchianChannel[%s](%d) over %v: at value #%d (price %v) upper %v, middle %v, lower %v are not ordered upper >= middle >= lower with lower <= price <= upper", name, c.Period, c.Values, k, v, u, m, l)
+					return o
+				}
+				if u == l && int64(u)%2 == 1 {
+					flatOdd = true
+				}
+			}
+			o.NonTrivial = len(res.Outs[0]) >= 2 && flatOdd
+			o.Key = fmt.Sprint(c.Period, c.Values)
+			return o
+		},
+	}
+}
+
 func props() []engine.AnyProp {
 	var ps []engine.AnyProp
+	ps = append(ps, donchianIntProp[int]("int", 1<<40), donchianIntProp[int64]("int64", 1<<40), donchianIntProp[int32]("int32", 1<<29), donchianIntProp[int16]("int16", 1<<13))
 	for _, c := range claims {
 		ps = append(ps, prop(c))
 	}
